@@ -40,7 +40,25 @@ pub fn current() -> u64 {
     CURRENT.load(std::sync::atomic::Ordering::Relaxed)
 }
 
+/// Process environment as part of the boot state: a process booted with an odd boot seed runs
+/// with a bare environment (no HOME, USER, PWD, LANG, TMPDIR, PATH ... - what a daemon, a
+/// container entry point or `env -i` gives a program); an even one keeps the inherited
+/// environment. Every entry point (worker, single, minimise, replay) boots with the scenario's
+/// boot seed, so the environment replays with the scenario.
+pub fn bare_environment(boot_seed: u64) -> bool {
+    boot_seed & 1 == 1
+}
+
 pub fn boot(boot_seed: u64) {
     CURRENT.store(boot_seed, std::sync::atomic::Ordering::Relaxed);
+    if bare_environment(boot_seed) {
+        let names: Vec<std::ffi::OsString> = std::env::vars_os().map(|(k, _)| k).collect();
+        for k in names {
+            let keep = k.to_str().is_some_and(|s| s.starts_with("VERIF_") || s.starts_with("RUST_"));
+            if !keep {
+                std::env::remove_var(&k);
+            }
+        }
+    }
     on_fresh_thread(derive(boot_seed, "boot-keys"), warm_up_here).expect("boot warm-up panicked");
 }
